@@ -1,3 +1,4 @@
+; expect: unsat
 (set-logic QF_IDL)
 (declare-fun x () Int)
 (declare-fun y () Int)
